@@ -69,6 +69,18 @@ def _depth(v):
     return d
 
 
+def _size(v, cap):
+    n, stack = 0, [v]
+    while stack and n < cap:
+        x = stack.pop()
+        n += 1
+        if isinstance(x, dict):
+            stack.extend(x.values())
+        elif isinstance(x, (list, tuple)):
+            stack.extend(x)
+    return n
+
+
 def _observe(fn):
     try:
         res = fn()
@@ -76,6 +88,9 @@ def _observe(fn):
         return {"exc": "Boom"}
     except Exception as e:  # noqa
         return {"exc": type(e).__name__, "msg": str(e)[:160]}
+    if _size(res.data, 60000) >= 60000:
+        # far larger than any generated case (generation keeps responses under 20000 nodes): not serialised
+        return {"exc": "ResponseTooLarge", "msg": "response has more than 60000 nodes"}
     if _depth(res.data) > 64:
         # deeper than any generated operation can select (and than the model's 64 levels): not serialised
         return {"exc": "ResponseTooDeep", "msg": "response nesting exceeds 64 levels"}
@@ -213,8 +228,11 @@ def _gen_request(rng, desc, allow_crash, max_sel=40, tries=12):
                "features": feats}
         world = G.World(desc, rng=wrng, allow_crash=allow_crash, p_error=rng.choice([0.0, 0.08, 0.15, 0.3]))
         dispatch.world = world
-        _observe(lambda: graphql_blocking(schema, doc, variables=copy.deepcopy(raw), operation_name=opname,
-                                          root=copy.deepcopy(req["root"]), validators=[_no_validation]))
+        o = _observe(lambda: graphql_blocking(schema, doc, variables=copy.deepcopy(raw), operation_name=opname,
+                                              root=copy.deepcopy(req["root"]), validators=[_no_validation]))
+        if o.get("exc") in ("ResponseTooLarge", "ResponseTooDeep") or _size(o.get("data"), 20000) >= 20000:
+            _STATS["too_large_discarded"] = _STATS.get("too_large_discarded", 0) + 1
+            continue
         req["world"] = world.entries()
         return req
     return None
